@@ -19,6 +19,8 @@ USER_GROUPS = [
     ("repeated-members", [["K", "E", "K"], ["g", "G"], ["P", "p", "P", "E"]]),
     ("duplicate-groups", [["E", "K"], ["G"], ["K", "E"], ["g"], ["P"]]),
     ("container-types", [{"k", "e"}, ("g", "P"), "kE", frozenset(["p"]), {"K": 1, "g": 2}.keys()]),
+    ("all-absent", [["W"], ["C", "M"]]),               # no group has a member in a {K,E,G,P} word: rows of zeros, too-long windows still rejected
+    ("one-absent-one-present", [["W", "F"], ["G", "K"]]),
 ]
 
 
@@ -173,7 +175,12 @@ def shard(s):
             for x in v:
                 acc.viol(x["key"], x["what"], x["case"])
         return acc
-    words = spaces.window_complete_chunks(ALPHA, 4, (L,)) if pre == "DB" else spaces.shard_words(ALPHA, L, pre)
+    if pre == "ALL20":
+        # every residue type in the profiles (hydropathy table, charge classes): X^3 Y^3 for the 20 cyclic neighbour pairs, and
+        # window-complete words over all 20 residues
+        words = [a * 3 + T.AA[(i + 7) % 20] * 3 for i, a in enumerate(T.AA)] + spaces.window_complete_chunks(T.AA, 2, (L,))[:3]
+    else:
+        words = spaces.window_complete_chunks(ALPHA, 4, (L,)) if pre == "DB" else spaces.shard_words(ALPHA, L, pre)
     for seq in words:
         v, calls = check_case({"kind": "profiles", "seq": seq})
         acc.states += 1
@@ -201,13 +208,13 @@ def run(tier, seed, t0):
     extra = [(L, pre) for L, pre in [(8, "KEGP"), (9, "PGEKK"), (12, "KKEEGGPPKE")]]
     extra += [(44, ("KEGP" * 11)[:42]), (64, ("KKEGPGEEKP" * 7)[:63]), (131, ("KEGPPGEK" * 17)[:130]),
               (300, ("EK" * 150)[:299]), (301, ("K" * 301)[:300]), (270, ("KKKE" * 70)[:269])]
-    extra += [(21, "DB"), (34, "DB"), (0, "REJECTED-FIRST")]
+    extra += [(21, "DB"), (34, "DB"), (0, "REJECTED-FIRST"), (27, "ALL20")]
     acc = core.pmap(shard, shards + extra)
     return core.finish(
         PROP, tier, seed, acc, t0,
         rule="every word over {K,E,G,P} of length 1..%d (plus all completions of three 8-12-mer prefixes, and 44-, 64- and 131-residue sequences with 13 selected windows) x every "
              "window 1..N+3 x {get_linear_NCPR, FCR, sigma, hydropathy} + get_linear_sequence_composition with default, explicit-default "
-             "and 5 user group lists: shape (2,N), positions 1..N, entry i+floor((w-1)/2) = exact statistic of window i, flanks 0, "
+             "and 10 user group lists (incl. lists none of whose groups occurs in the sequence), plus 20 words X^3Y^3 and three 27-residue window-complete words covering all 20 residue types: shape (2,N), positions 1..N, entry i+floor((w-1)/2) = exact statistic of window i, flanks 0, "
              "w=N equals the whole-sequence getter, w>N must raise (for a quarter of the words the rejected window is asked first and the valid ones afterwards on the same object; in a freshly imported package the first requests of the process are rejected ones), and delta == mean over w=5,6 of the mean squared deviation of "
              "the sigma profile from the global sigma; non-trivial = words with >=2 distinct letters" % N,
         bounds={"N": N, "windows": "1..N+3", "user_group_lists": len(USER_GROUPS)},
